@@ -4,6 +4,8 @@ from __future__ import annotations
 
 import ast
 
+from sa.astutil import after_block, precedes  # statement order (never line numbers)
+
 from sa.astutil import (
     knows,
     only_knows,
@@ -326,7 +328,7 @@ def r4_step_loop(ctx):
     lo, hi = g.count_events_per_iteration(header, run_nodes)
     ctx.check((lo, hi) == (1, 1), RUN + "#once", "Processor.run_pipeline runs exactly once per readout time" if (lo, hi) == (1, 1) else f"Processor.run_pipeline runs between {lo} and {hi} times per readout time", where=f, node=run_call, facts={"min": lo, "max": hi})
     for n in loop_exits(lp):
-        if isinstance(n, (ast.Break, ast.Return)) or (isinstance(n, ast.Continue) and n.lineno < run_call.lineno):
+        if isinstance(n, (ast.Break, ast.Return)) or (isinstance(n, ast.Continue) and precedes(lp, n, run_call)):
             ctx.fail(RUN + "#exit", f"{type(n).__name__.lower()} inside the step loop skips readout steps", where=f, node=n)
     recv = dotted(expand(f, run_call.func.value)) if isinstance(run_call.func, ast.Attribute) else None
     ctx.check(recv == "processor", RUN + "#run-recv", "runs the processor whose detector was prepared" if recv == "processor" else f"runs {recv}.run_pipeline", where=f, node=run_call)
@@ -415,8 +417,9 @@ def _step_empty_checks(ctx, f, lp, g, header, run_nodes, run_call, QUAL):
     lo, hi = g.count_events_per_iteration(header, en)
     ctx.check(hi <= 1, QUAL + "#step-empty-once", f"one empty per step (max {hi})", where=f, node=empties[0])
     # nothing empties after the run inside the step (would wipe results before extraction)
+    order_ = {id(n_): i_ for i_, n_ in enumerate(walk_ordered(lp))}  # statement order, not line numbers (inlined code keeps its own)
     for c in empties:
-        if c.lineno > run_call.lineno:
+        if order_.get(id(c), -1) > order_.get(id(run_call), 10**9):
             ctx.fail(QUAL + "#step-empty-after", "detector.empty is called after the model run inside the step", where=f, node=c)
 
 
